@@ -18,6 +18,7 @@ def step (d : D) (op impl : String) : D × DrvOut :=
             else s!"FAIL run-on-{kind} hook pair is not start-then-stop" })
   | ["rtsp", evs] =>
     -- the real RTSP session handlers against the session machine of Model/C20
+    if impl == "no-shim" then (d, { model := "no-shim" }) else
     let es := (evs.splitOn ",").filterMap fun e => match e with
       | "setup" => some C20.REv.setup | "play" => some .play | "pause" => some .pause | "close" => some .close
       | _ => none
@@ -33,7 +34,50 @@ def step (d : D) (op impl : String) : D × DrvOut :=
         | some open_ =>
           if open_ && es.contains .close then "FAIL RTSP session closed with an open runOnRead pair" else "ok"
     (d, { model := fmt r.2, spec := verdict })
+  | ["hls", script] =>
+    -- the real HLS session / muxer code against the muxer machine of Model/C20
+    if impl == "no-shim" then (d, { model := "no-shim" }) else
+    let num := fun (pre : String) (e : String) => if e.startsWith pre then (e.drop pre.length).toString.toNat? else none
+    let es := (script.splitOn ",").filterMap fun e =>
+      if e == "down" then some C20.HEv.down else if e == "up" then some .up else if e == "end" then some .fin
+      else match num "open" e, num "cdn" e, num "kick" e with
+        | some n, _, _ => some (.openS n)
+        | _, some n, _ => some (.cdnS n)
+        | _, _, some n => some (.kick n)
+        | _, _, _ => none
+    let tok := fun (o : C20.HOut) => match o with
+      | .hook n true => s!"h+read:{n}" | .hook n false => s!"h-read:{n}" | .err n => s!"err:{n}"
+    -- per event; the close2 calls of ONE "stop everything" come in map order in the real loop (the shim
+    -- closes in ascending session number): order the stops of a `down` / `end` event by number
+    let stepOut := fun (st : C20.HState) (e : C20.HEv) =>
+      let r := C20.hlsStep st e
+      let outs := match e with
+        | .down | .fin =>
+          (Drv.sortNat (r.2.filterMap fun (o : C20.HOut) => match o with | C20.HOut.hook n false => some n | _ => none)).map
+            fun n => C20.HOut.hook n false
+        | _ => r.2
+      (r.1, outs)
+    let modelToks := (es.foldl (fun (acc : C20.HState × List String) e =>
+      let r := stepOut acc.1 e
+      (r.1, acc.2 ++ r.2.map tok)) (({} : C20.HState), [])).2
+    let fmt := fun (l : List String) => if l.isEmpty then "-" else " ".intercalate l
+    let toks := if impl == "-" then [] else words impl
+    let sess := (toks.filterMap fun t =>
+      match t.splitOn ":" with | [_, n] => n.toNat? | _ => none).eraseDups
+    let verdict :=
+      if toks.contains "PANIC" then "FAIL an HLS session/muxer function panicked"
+      else
+        let bad := sess.filter fun n =>
+          let evs := toks.filterMap fun t =>
+            if t == s!"h+read:{n}" then some true else if t == s!"h-read:{n}" then some false else none
+          match altRun false evs with
+          | none => true
+          | some open_ => open_ && es.contains .fin
+        if bad.isEmpty then "ok"
+        else s!"FAIL runOnRead/runOnUnread of HLS session(s) {bad} not in start/stop pairs closed at muxer destruction: " ++ impl
+    (d, { model := fmt modelToks, spec := verdict })
   | ["rtspconn", c] =>
+    if impl == "no-shim" then (d, { model := "no-shim" }) else
     let m := if c == "1" then "h+connect h-connect" else "h+connect"
     (d, { model := m, spec := if impl == m then "ok" else "FAIL runOnConnect/runOnDisconnect pair of the RTSP connection: " ++ impl })
   | _ =>
